@@ -377,6 +377,8 @@ PROPS = {
              "trace_module": "Trace_Bmoc", "trace_cfg": "Trace_Bmoc.cfg", "clauses": ["panic", "no_miss"]},
             {"kind": "rec", "profiles": ["release", "debug"], "other_profile_frac": 0.5, "scenario": "CONE", "count": {"quick": 6000, "thorough": 150000}, "trace_module": "Trace_Bmoc", "trace_cfg": "Trace_Bmoc.cfg",
              "shards": 10, "clauses": ["panic", "no_miss"]},
+            {"kind": "rec", "scenario": "CONEBIG", "count": {"quick": 300, "thorough": 8000}, "trace_module": "Trace_Bmoc", "trace_cfg": "Trace_Bmoc.cfg",
+             "shards": 10, "clauses": ["panic", "no_miss"]},
         ],
     },
     "C06": {
@@ -396,6 +398,8 @@ PROPS = {
             {"kind": "gentrace", "module": "Gen_Faces", "cfg": {"quick": "Gen_Faces_cov.cfg", "thorough": "Gen_Faces.cfg"}, "scenario": "CONE",
              "trace_module": "Trace_Bmoc", "trace_cfg": "Trace_Bmoc.cfg", "clauses": ["dmax", "wellformed", "packed", "allsky", "full_truthful", "tight"]},
             {"kind": "rec", "profiles": ["release", "debug"], "other_profile_frac": 0.5, "scenario": "CONE", "count": {"quick": 6000, "thorough": 150000}, "trace_module": "Trace_Bmoc", "trace_cfg": "Trace_Bmoc.cfg",
+             "shards": 10, "clauses": ["dmax", "wellformed", "packed", "allsky", "full_truthful", "tight"]},
+            {"kind": "rec", "scenario": "CONEBIG", "count": {"quick": 300, "thorough": 8000}, "trace_module": "Trace_Bmoc", "trace_cfg": "Trace_Bmoc.cfg",
              "shards": 10, "clauses": ["dmax", "wellformed", "packed", "allsky", "full_truthful", "tight"]},
         ],
     },
